@@ -48,6 +48,11 @@ def replay_c16(case):
         lo_l = 1 if case["contr"] == "generalized" else rng.choice([0, 1])
         for s_ in basis:
             s_["l"] = lo_l if s_["type"] == "spherical" else min(lo_l + 2, case.get("lmax", 4))
+    elif case["id"] % 3 == 1:
+        for s_ in basis:                      # a pure d shell in every third class (the most common pure shell of all)
+            if s_["type"] == "spherical":
+                s_["l"] = 2
+                break
     shells = gb.make_basis(basis)
     # trapezoid rule: for a product exponent p <= 5 the aliasing error is ~ exp(-pi^2 / (p h^2)) = 5e-22 at h = 0.2, times
     # at most (pi / (p h))^(2l+2) ~ 1e5; the box cuts r^8 exp(-0.6 r^2) below 1e-13
@@ -102,12 +107,14 @@ def replay_c16(case):
     Sa = m("gbasis.integrals.overlap").overlap_integral(shells)
     Ta = m("gbasis.integrals.kinetic_energy").kinetic_energy_integral(shells)
     Ma = m("gbasis.integrals.moment").moment_integral(shells, org, orders)
-    chk("overlap_integral", S, Sa, 1e-8)
+    # the trapezoid rule is converged to ~1e-14 on this grid (the deviation observed on the unchanged tree; the property
+    # names 1e-10): the two halves of the library are held to 1e-9, moments (which grow with the box) to 1e-8
+    chk("overlap_integral", S, Sa, 1e-9)
     tsc = np.sqrt(np.abs(np.diag(Ta)))
-    chk("kinetic_energy_integral", Tq / (tsc[:, None] * tsc[None, :]), Ta / (tsc[:, None] * tsc[None, :]), 1e-8)
-    chk("moment_integral", Mq, Ma, 1e-7)
-    chk("integral of evaluate_density = tr(P S)", rho, np.trace(P @ Sa), 1e-8 * np.abs(P).sum())
-    chk("integral of evaluate_posdef_kinetic_energy_density = tr(P T)", tq, np.trace(P @ Ta), 1e-8 * np.abs(P).sum() * (tsc.max() ** 2))
+    chk("kinetic_energy_integral", Tq / (tsc[:, None] * tsc[None, :]), Ta / (tsc[:, None] * tsc[None, :]), 1e-9)
+    chk("moment_integral", Mq, Ma, 1e-8)
+    chk("integral of evaluate_density = tr(P S)", rho, np.trace(P @ Sa), 1e-9 * np.abs(P).sum())
+    chk("integral of evaluate_posdef_kinetic_energy_density = tr(P T)", tq, np.trace(P @ Ta), 1e-9 * np.abs(P).sum() * (tsc.max() ** 2))
     res["sig"] = (tuple(case["types"]), case["geom"], case["contr"], tuple(s["l"] for s in basis))
     return res
 
